@@ -3,7 +3,7 @@ From Coq Require Import Reals List.
 From Coquelicot Require Import Coquelicot.
 From GS Require Import ExprR LinAlg Meth MethR Prog Chain Wrap Spec GenR2 GenR3 GenSE2 GenSE3 GenEdges
   C10_SE3 C10_SE3_boxplus C10_SE2 C10_Rn C09_SE3 C09_SE2 C11_main C01_SE3 C01_Rn C01_SE2 C02_model C07_errors C07_equiv C07_traj
-  GraphModel GNSpec C07_jac2 C07_lmk C07_basis C07_traj2 C07_RnJac C03_sums C07_glue.
+  GraphModel GNSpec C07_jac2 C07_lmk C07_basis C07_traj2 C07_RnJac C03_sums C07_glue C07_ext C07_inst C07_whole.
 Import ListNotations.
 Open Scope R_scope.
 
@@ -87,6 +87,25 @@ Lemma C07_all :
      solves (glen vs) (spec_H vs es) (spec_b vs es) d ->
      solves (glen vs) (spec_H vs (map (tb_edge vs Q) es)) (spec_b vs (map (tb_edge vs Q) es)) (bmul vs P d)) /\
   (forall vs Q es, spec_chi2 (map (tb_edge vs Q) es) = spec_chi2 es) /\
+  (* ---- the two levels joined, for WHOLE graphs of odometry and landmark edges (proofs/C07_whole.v): [ds] describes the graph (vertex positions,
+          information matrices, and the numbers the regenerated edge programs are run on), [rec3 d] / [rec2 d] is the GraphModel record built from
+          what the regenerated error / Jacobian programs RETURN, [move3 T] / [move2 T] replaces every pose p by T (+) p and every landmark l by T.l.
+          For every graph, every fixed set, every T and every solution d of the normal equations of the graph, P d solves the normal equations of the
+          transformed graph, where P leaves pose increments alone and rotates landmark increments by R_T.  (The normal equations only read
+          matrix entries inside their bounds: [edge_sim], proofs/C07_ext.v.)  The premises are met by a concrete three-vertex graph. ---- *)
+  (forall vs lm T ds d, length T = 7%nat -> unitq T -> List.Forall (fun v => (0 < v_dim v)%nat) vs ->
+     (forall k, (k < length vs)%nat -> lm k = true -> dim_at vs k = 3%nat) ->
+     List.Forall (ok3 vs lm) ds -> List.Forall (shape3 vs) ds ->
+     solves (glen vs) (spec_H vs (map rec3 ds)) (spec_b vs (map rec3 ds)) d ->
+     solves (glen vs) (spec_H vs (map rec3 (map (move3 T) ds))) (spec_b vs (map rec3 (map (move3 T) ds))) (bmul vs (P3 lm T) d)) /\
+  (forall vs lm T ds d, length T = 3%nat -> List.Forall (fun v => (0 < v_dim v)%nat) vs ->
+     (forall k, (k < length vs)%nat -> lm k = true -> dim_at vs k = 2%nat) ->
+     List.Forall (ok2 vs lm) ds -> List.Forall (shape2 vs) ds ->
+     solves (glen vs) (spec_H vs (map rec2 ds)) (spec_b vs (map rec2 ds)) d ->
+     solves (glen vs) (spec_H vs (map rec2 (map (move2 T) ds))) (spec_b vs (map rec2 (map (move2 T) ds))) (bmul vs (P2 lm T) d)) /\
+  (length ex_T = 7%nat /\ unitq ex_T /\ List.Forall (fun v => (0 < v_dim v)%nat) ex_vs /\
+   (forall k, (k < length ex_vs)%nat -> ex_lm k = true -> dim_at ex_vs k = 3%nat) /\
+   List.Forall (ok3 ex_vs ex_lm) ex_ds /\ List.Forall (shape3 ex_vs) ex_ds) /\
   (* ---- trajectory when increments are transformed too (landmarks): any solver returning A solution, the
           transformed system having at most one ---- *)
   (forall (P : Type) (tr : nat -> P -> P) (dmap : nat -> list R -> list R) (good : list P -> Prop)
@@ -115,6 +134,7 @@ Proof.
   split; [exact rot3_inverse|]. split; [exact rot2_inverse|].
   split; [exact C07_lmk3_is_rebased|]. split; [exact C07_lmk2_is_rebased|]. split; [exact Rm3_spec|]. split; [exact Rm2_spec|].
   split; [exact basis_change_inv|]. split; [exact chi2_tb|].
+  split; [exact C07_graph_SE3_descr|]. split; [exact C07_graph_SE2_descr|]. split; [exact C07_graph_SE3_premises|].
   split; [exact trajectory2_equivariant|].
   exact trajectory_equivariant.
 Qed.
